@@ -120,6 +120,15 @@ def case_strategy(writer):
         def build(draw):
             relativize = draw(st.integers(0, 4)) != 0
             L = draw(layout_strategy(percent_only=not relativize))
+            if writer == "webvtt" and not relativize and draw(st.integers(0, 2)) == 0:
+                # relativization off and absolute units: WebVTT must drop the positioning -
+                # also when every absolute length is zero
+                L = draw(layout_strategy(percent_only=False))
+                if draw(st.booleans()):
+                    for part in ("origin", "extent", "padding"):
+                        for sz in (L.get(part) or []):
+                            if sz is not None and sz[1] != "%":
+                                sz[0] = 0
             dims = st.sampled_from([320, 640, 720, 1280, 1920, 3840])
             mode = draw(st.sampled_from(["both", "both", "both", "w", "h", "none"]))
             vw = draw(dims) if mode in ("both", "w") else None
